@@ -36,8 +36,10 @@ Dims == [
     \* the witness checkpoint of origin A (which is also the mirror's pending
     \* checkpoint): cosigned by the witness key, cosigned by a stranger only,
     \* cut in half; wrongdir: intact, but the directory also holds a checkpoint
-    \* of origin A under the hash of another origin
-    wcp    |-> {"ok", "resigned", "truncated", "wrongdir"},
+    \* of origin A under the hash of another origin; missing: the witness has no
+    \* checkpoint of origin A at all (so the mirror has no pending checkpoint to
+    \* be "not ahead of": c2sp.org/tlog-mirror has it always present)
+    wcp    |-> {"ok", "resigned", "truncated", "wrongdir", "missing"},
     \* mirror/mirror.v0.json
     mkeys  |-> {"ok", "missing", "otherkeys"},
     \* the mirror checkpoint of origin A (wrongdir: as above, a second mirrored
@@ -87,12 +89,13 @@ LogGreen(c) ==
 
 \* the witness checkpoint verifies under the published witness keys and sits
 \* under the hash of its own origin
-WitGreen(c) == c.wkeys = "ok" /\ c.wcp = "ok"
+\* (no witness checkpoint of origin A: nothing of A's to verify on the witness side)
+WitGreen(c) == c.wkeys = "ok" /\ c.wcp \in {"ok", "missing"}
 
 \* the mirror checkpoint verifies under the published mirror keys, sits under
 \* the hash of its own origin, has verifiable right-edge tiles and is not ahead
 \* of the pending checkpoint
-MirGreen(c) == c.mkeys = "ok" /\ c.mcp = "ok" /\ c.medge = "ok" /\ c.mpend = "ok"
+MirGreen(c) == c.mkeys = "ok" /\ c.mcp = "ok" /\ c.medge = "ok" /\ c.mpend = "ok" /\ c.wcp # "missing"
 
 \* staging entries do not count (Config: "Staging indicates that this log /
 \* this witness should not make /health fail")
@@ -138,12 +141,13 @@ LogErr(c) ==
     ELSE IF c.lage = "stale" THEN "old" ELSE "none"
 
 WitKeysErr(c) == c.wkeys # "ok" /\ c.wkeys # "otherkeys"       \* loadVerifiers fails
-WitCpErr(c) == c.wkeys = "otherkeys" \/ c.wcp # "ok"
+WitCpErrA(c) == c.wcp # "missing" /\ (c.wkeys = "otherkeys" \/ c.wcp # "ok")   \* origin A's witness checkpoint
+WitCpErr(c) == c.wkeys = "otherkeys" \/ WitCpErrA(c)                           \* (origin B's fails with foreign keys)
 MirKeysErr(c) == c.mkeys = "missing" \/ WitKeysErr(c)          \* the mirror also loads the witness keys
 MirCpErr(c) ==
     \/ c.mkeys = "otherkeys" \/ c.mcp # "ok" \/ c.medge # "ok"
     \/ c.wkeys = "otherkeys" \/ c.wcp \in {"resigned", "truncated"}   \* pending checkpoint unverifiable
-    \/ c.mpend = "ahead"
+    \/ c.mpend = "ahead" \/ c.wcp = "missing"                           \* pending checkpoint unreadable
 
 ModelAnswer(s) ==
     LET c == s.c
@@ -151,5 +155,5 @@ ModelAnswer(s) ==
         witFails == ~s.ws /\ (WitKeysErr(c) \/ WitCpErr(c) \/ MirKeysErr(c) \/ MirCpErr(c))
     IN [status |-> IF logFails \/ witFails THEN 500 ELSE 200,
         namedLog |-> LogErr(c) \notin {"none", "sunset"} /\ ~s.ls,
-        namedA |-> ~s.ws /\ ((~WitKeysErr(c) /\ WitCpErr(c)) \/ (~MirKeysErr(c) /\ MirCpErr(c)))]
+        namedA |-> ~s.ws /\ ((~WitKeysErr(c) /\ WitCpErrA(c)) \/ (~MirKeysErr(c) /\ MirCpErr(c)))]
 =============================================================================
